@@ -14,6 +14,7 @@
 #include <dispenso/thread_pool.h>
 #include <dispenso/timed_task.h>
 
+#include <sched.h>
 #include <signal.h>
 #include <unistd.h>
 
@@ -124,6 +125,45 @@ extern "C" void __wrap_dispenso_verif_point(const char* site, const void* obj) {
     World* w = g_w;
     if (w && w->tts && obj == (const void*)&w->tts->epoch_)
       ctl::note("ew", 1);
+  }
+}
+
+// ~TimedTaskScheduler() joins the scheduler thread for real (a BLOCKING region of the hooks).  While
+// the joiner is on its way back the controller does not wait for it if anything else (e.g. the
+// time-out of an idle pool worker) can be scheduled, so on a loaded machine the joiner could starve
+// until the step bound.  The three shims below (also --wrap) let the projection, which runs in the
+// controller between two steps, wait until the joiner has arrived at its TtJoined point once the
+// scheduler thread has ended.  This only removes a real-time race of the harness; which logical
+// thread runs next is still the schedule's choice.
+static std::atomic<int> g_ttsEnded{0}, g_inJoin{0}, g_joinArrived{0};
+extern "C" void __real_dispenso_verif_thread_end(const char* kind, const void* owner);
+extern "C" void __wrap_dispenso_verif_thread_end(const char* kind, const void* owner) {
+  if (kind[0] == 't' && kind[1] == 't')
+    g_ttsEnded.store(1, std::memory_order_release);
+  __real_dispenso_verif_thread_end(kind, owner);
+}
+extern "C" void __real_dispenso_verif_blocking_begin(const char* site, const void* obj);
+extern "C" void __wrap_dispenso_verif_blocking_begin(const char* site, const void* obj) {
+  if (!strcmp(site, "TtJoin"))
+    g_inJoin.store(1, std::memory_order_release);
+  __real_dispenso_verif_blocking_begin(site, obj);
+}
+extern "C" void __real_dispenso_verif_blocking_end(const char* site, const void* obj);
+extern "C" void __wrap_dispenso_verif_blocking_end(const char* site, const void* obj) {
+  if (!strcmp(site, "TtJoined"))
+    g_joinArrived.store(1, std::memory_order_release);
+  __real_dispenso_verif_blocking_end(site, obj);
+}
+static void awaitJoiner() {
+  if (g_ttsEnded.load(std::memory_order_acquire) && g_inJoin.load(std::memory_order_acquire) &&
+      !g_joinArrived.load(std::memory_order_acquire)) {
+    auto t0 = std::chrono::steady_clock::now();
+    while (!g_joinArrived.load(std::memory_order_acquire) &&
+           std::chrono::steady_clock::now() - t0 < std::chrono::seconds(10))
+      sched_yield();
+    // give the joiner the few instructions between the shim and its ST_POINT store
+    for (int i = 0; i < 50; ++i)
+      sched_yield();
   }
 }
 
@@ -273,6 +313,7 @@ static long long small(unsigned long long v) {
 }
 
 static void project(World* w, Json& j) {
+  awaitJoiner();
   j.kv("now", g_now.load());
   size_t n = w->sc.cfg.size() - 1;
   j.key("tk").beginArr();
@@ -422,6 +463,9 @@ static ctl::RunResult execute(const Scenario& sc, ctl::RunOptions opts, ctl::Tra
   w->nDrivers = (int)sc.prog.size();
   g_w = w;
   g_now.store(0);
+  g_ttsEnded.store(0);
+  g_inJoin.store(0);
+  g_joinArrived.store(0);
   g_clockOn.store(1);
   tr.line(resetLine(sc, tag));
   ctl::Controller c(tr);
@@ -459,7 +503,8 @@ namespace fr {
 using Clock = std::chrono::steady_clock;
 struct Rec {
   std::atomic<int> entered{0}, exited{0}, lateStarts{0};
-  std::atomic<long long> firstUs{-1};
+  std::atomic<long long> firstUs{-1}, firstLibUs{-1};
+  double t0Lib = 0;
   std::atomic<int> destroyed{0};
   std::atomic<int> fdead{0}, uaf{0};
   Clock::time_point t0;
@@ -482,10 +527,13 @@ struct FFn {
   bool operator()() const {
     if (!owner || r->fdead.load())
       r->uaf.fetch_add(1);
+    double lib = dispenso::getTime();
     long long us = std::chrono::duration_cast<std::chrono::microseconds>(Clock::now() - r->t0).count();
     int idx = r->entered.fetch_add(1) + 1;
-    if (idx == 1)
+    if (idx == 1) {
       r->firstUs.store(us);
+      r->firstLibUs.store((long long)std::floor((lib - r->t0Lib) * 1e6));
+    }
     if (r->destroyed.load(std::memory_order_acquire))
       r->lateStarts.fetch_add(1);
     if (r->bodyUs)
@@ -518,7 +566,9 @@ static int runFree(const drv::Args& a) {
     r->bodyUs = (int)(ctl::splitmix(rng) % 3) * 300;
     int actAtUs = (int)(ctl::splitmix(rng) % (unsigned)((delayMs + perMs * times + 1) * 1000));
     auto type = steady ? dispenso::TimedTaskType::kSteady : dispenso::TimedTaskType::kNormal;
-    r->t0 = Clock::now(); // before the library computes the absolute time: elapsed is an upper bound (R5)
+    // both clocks are read before the library computes the absolute time: elapsed over-estimates (R5)
+    r->t0Lib = dispenso::getTime();
+    r->t0 = Clock::now();
     auto dly = std::chrono::microseconds(delayMs * 1000);
     auto per = std::chrono::microseconds(perMs * 1000);
     dispenso::TimedTask* h = nullptr;
@@ -553,7 +603,7 @@ static int runFree(const drv::Args& a) {
     j.kv("e", std::string("Rec"));
     j.kv("delay", delayMs * 1000).kv("per", perMs * 1000).kv("times", times).kv("steady", steady ? 1 : 0);
     j.kv("kind", kind).kv("action", action).kv("falseAt", r->falseAt);
-    j.kv("n", r->entered.load()).kv("first", r->firstUs.load());
+    j.kv("n", r->entered.load()).kv("first", r->firstUs.load()).kv("firstLib", r->firstLibUs.load());
     j.kv("calls", callsBefore).kv("enteredAtCalls", enteredBeforeDtor);
     j.kv("atCancel", atCancel);
     j.kv("inprog", inProgAtDtor).kv("late", r->lateStarts.load());
